@@ -155,23 +155,60 @@ pub fn check(case: &Case, l: &mut Local) -> Verdict {
     Verdict::Pass { nontrivial: multibyte && (t.lookbehind || t.split) }
 }
 
+fn gen_small(src: &mut Src, _t: Tier) -> Case {
+    let v = super::c01::small_slice(true);
+    v[(src.raw() as usize).min(v.len() - 1)].clone()
+}
+
+/// bounded-exhaustive: the small-pattern grammar of C01 with the literal b replaced by e-acute, flags - and u,
+/// all haystacks over {a, e-acute, U+1F600} up to length 3, starts 0 / second boundary / len+1
+fn check_small(case: &Case, l: &mut Local) -> Verdict {
+    static HAYS: std::sync::OnceLock<Vec<String>> = std::sync::OnceLock::new();
+    let hays = HAYS.get_or_init(|| all_strings(&[0x61, 0xE9, 0x1F600], 3));
+    let mut pat: Vec<u32> = vec![];
+    let mut prev = 0x20;
+    for &c in case.pat.iter() {
+        pat.push(if c == 0x62 && prev != 0x5C { 0xE9 } else { c });
+        prev = c;
+    }
+    let mut nontrivial = false;
+    for fl in ["", "u"] {
+        for h in hays {
+            let second = h.chars().next().map(|c| c.len_utf8()).unwrap_or(0);
+            for s in [0usize, second, h.len() + 1] {
+                let c = Case { pat: pat.clone(), hay: h.clone(), start: s, flags: fl.to_string(), ..case.clone() };
+                match check(&c, l) {
+                    Verdict::Fail(m) => return Verdict::Fail(format!("/{}/{} on \"{}\" from {}: {}", crate::pat::show(&pat), fl, h, s, m)),
+                    Verdict::Pass { nontrivial: n } => nontrivial |= n,
+                    _ => {}
+                }
+            }
+        }
+    }
+    Verdict::Pass { nontrivial }
+}
+
+pub static VX: Variant = Variant { name: "exhaustive_small_patterns", choice_len: 1, gen: gen_small, check: check_small };
 pub static V: Variant = Variant { name: "safety_general", choice_len: 400, gen, check };
 pub static VS: Variant = Variant { name: "safety_soup", choice_len: 120, gen: gen_soup_match, check };
 
 pub fn variants() -> Vec<&'static Variant> {
-    vec![&V, &VS]
+    vec![&V, &VS, &VX]
 }
 
 pub fn run(ctx: &Ctx) -> i32 {
     ctx.run_variant(&V, ctx.scale(400_000, 6_000_000));
     ctx.run_variant(&VS, ctx.scale(300_000, 4_000_000));
+    let slice = super::c01::small_slice(true);
+    let part: Vec<Case> = slice.iter().enumerate().filter(|(i, _)| ctx.tier == Tier::Thorough || i % 16 == 0).map(|(_, c)| c.clone()).collect();
+    ctx.run_list(&VX, &part);
     if std::env::var("VERIF_SUMMARY_ONLY").is_err() {
         ctx.run_other_build("chk(debug-assertions,overflow-checks)", "target/chk/check");
         ctx.run_other_build("safe(prohibit-unsafe,index-positions,debug-assertions)", "target-safe/chk/check");
     }
     ctx.finish(
         "exploration",
-        "random ES patterns (general generator biased to lookbehind and greedy single-char loops that must give back, plus compilable token soup) x haystacks built from every UTF-8 sequence length with multi-byte characters at both ends (also empty / one char) x starts over every boundary, len, len+1.., usize::MAX; UTF-8 entry points everywhere, ASCII entry points on ASCII haystacks (and, for panic-freedom only, on non-ASCII ones); both executors, both pipelines. Oracle: no panic, no process death (supervisor + journal), every match and capture range satisfies 0 <= start <= end <= len on char boundaries and slices the haystack. The identical case stream (same seed) is executed by three builds: release, chk (debug assertions make the code's own boundary/index invariants fail loudly) and safe (prohibit-unsafe + index-positions: out-of-bounds becomes a panic). Non-trivial = multi-byte haystack and a backward-moving or looping construct.",
+        "(bounded-exhaustive) the small-pattern grammar of C01 with b spelled as e-acute (a sixteenth of it in the quick tier), flags - and u, x all haystacks over {a, e-acute, U+1F600} up to length 3 x starts 0, second boundary, len+1; plus random ES patterns (general generator biased to lookbehind and greedy single-char loops that must give back, plus compilable token soup) x haystacks built from every UTF-8 sequence length with multi-byte characters at both ends (also empty / one char) x starts over every boundary, len, len+1.., usize::MAX; UTF-8 entry points everywhere, ASCII entry points on ASCII haystacks (and, for panic-freedom only, on non-ASCII ones); both executors, both pipelines. Oracle: no panic, no process death (supervisor + journal), every match and capture range satisfies 0 <= start <= end <= len on char boundaries and slices the haystack. The identical case stream (same seed) is executed by three builds: release, chk (debug assertions make the code's own boundary/index invariants fail loudly) and safe (prohibit-unsafe + index-positions: out-of-bounds becomes a panic). Non-trivial = multi-byte haystack and a backward-moving or looping construct.",
         &["a non-boundary start below len is documented to panic and is not generated", "ASCII entry points on non-ASCII text: only panic freedom and 0<=start<=end<=len are asserted (documented precondition)", "silent out-of-bounds reads that neither crash the release build nor trip an assertion in the checked builds are not visible here (ASan/Miri tier)"],
     )
 }
